@@ -237,7 +237,10 @@ def gen_case(rng, pid, tier):
                         sub.append(['server', sv, dict(servers[str(sv)], parent='rack:9')])
                     else:
                         sub.append(['server', sv, dict(servers[str(sv)])])
-                elif y < 0.65 and napps[0]:
+                elif y < 0.65 and napps[0] and pid not in SCHED_PIDS:
+                    # (the scheduler-level properties quantify over histories of events and cycles only: a
+                    # store nobody wrote - e.g. a forged record carrying an identity that is already held - is
+                    # outside them, so their runs get no `inject`)
                     # a record no correct master writes: a second record of an instance (double), a record
                     # of a pending / unscheduled instance (stale), or one under a server without record (s09)
                     sub.append(['inject', rng.randint(1, napps[0]), rng.choice(list(range(1, nsrv + 1)) + [9]),
@@ -1335,6 +1338,8 @@ def _apply(case, pid, run, w, op):
                     w.zdel('/servers/' + sname(sub[1]))
                 else:
                     _put_server(w, sub[1], sub[2])
+            elif sub[0] == 'inject' and pid in SCHED_PIDS:
+                w.stats['inject-skipped-sched-pid'] += 1
             elif sub[0] == 'inject':
                 _, n, sid, ident, dexp = sub
                 name = w.apps_n.get(n)
